@@ -25,6 +25,7 @@ def _work(args):
     import impl
     import checkers  # noqa: F401  registers
     # the library prints debug output (PieceWiseLinFunc.integral); workers report through return values
+    saved_stdout = sys.stdout
     sys.stdout = open(os.devnull, "w")
     out = []
     n = 0
@@ -44,6 +45,8 @@ def _work(args):
         return ("machinery", str(e), [])
     except Exception:
         return ("machinery", traceback.format_exc(), [])
+    finally:
+        sys.stdout = saved_stdout
 
 
 def run(ctx, name, records, backends=("py", "shim"), nproc=None, chunk=400, limit_mismatch=200):
